@@ -11,7 +11,6 @@ package c04
 //	tokens carry subject, client, scopes, nonce of the request.
 
 import (
-	"testing"
 	"crypto"
 	"crypto/ecdsa"
 	"crypto/ed25519"
@@ -24,6 +23,7 @@ import (
 	"math/big"
 	"sort"
 	"strings"
+	"testing"
 
 	"verif/harness/vkit"
 )
@@ -61,12 +61,31 @@ type model struct {
 
 // wire is what the token request presents about its sender, as sent.
 type wire struct {
-	hasBasic            bool
-	basicID, basicSec   string
-	bodyID, bodySec     string
-	hasAssertion        bool
-	assertIss           string
-	assertValid         bool // signed by a key registered for assertIss, audience = issuer, inside its validity
+	hasBasic          bool
+	basicID, basicSec string
+	bodyID, bodySec   string
+	hasAssertion      bool
+	assertIss         string
+	assertValid       bool   // signed by a key registered for assertIss, audience = issuer, inside its validity
+	assertKey         string // (description only) "<kid in the header>/<pool key it is signed with>"
+}
+
+// String renders what was sent (set members only; failure messages are cut at 600 characters by the driver).
+func (w wire) String() string {
+	var p []string
+	if w.hasBasic {
+		p = append(p, fmt.Sprintf("Basic %s:%s", w.basicID, w.basicSec))
+	}
+	if w.bodyID != "" {
+		p = append(p, "client_id="+w.bodyID)
+	}
+	if w.bodySec != "" {
+		p = append(p, "client_secret="+w.bodySec)
+	}
+	if w.hasAssertion {
+		p = append(p, fmt.Sprintf("assertion iss=%s kid/key=%s valid=%v", w.assertIss, w.assertKey, w.assertValid))
+	}
+	return "{" + strings.Join(p, " ") + "}"
 }
 
 func (w wire) claimed() map[string]bool {
